@@ -13,7 +13,7 @@
    computes with what was observed. *)
 From Eino Require Import Base.Util Model.StateLock Model.StateLockLTS Model.StateLockDrive.
 From Eino Require Import Proofs.StateLockLTS Proofs.StateLockVal Proofs.StateLockOrder Proofs.StateLockFlow
-  Proofs.StateLockOwn Proofs.StateLockAcq Proofs.StateLockNest Proofs.StateLockDrive Proofs.StateLock.
+  Proofs.StateLockOwn Proofs.StateLockAcq Proofs.StateLockNest Proofs.StateLockLive Proofs.StateLockDrive Proofs.StateLock.
 From Coq Require Import Permutation Sorted.
 Open Scope N_scope.
 
@@ -32,6 +32,17 @@ Theorem mutex :
   preach S X gen hfun lout mrg f x0 c ->
   forall i n i' n' o, in_cs S X c i n o -> in_cs S X c i' n' o -> i = i' /\ n = n'.
 Proof. exact mutex_preach. Qed.
+
+(* no lock is leaked: a lock that is held is held by a node inside a critical section whose
+   next step (load, store, release) is enabled - nobody can block the holder *)
+Theorem held_lock_released :
+  forall (S X : Type) (gen : nat -> S) (hfun : kind -> N -> X -> S -> X * S) (lout : N -> X -> X)
+         (mrg : list X -> X) (f : forest) (x0 : X) (c : config S X),
+  preach S X gen hfun lout mrg f x0 c ->
+  forall o r i n, nth_error (c_objs c) o = Some r -> o_holder r = Some (i, n) ->
+    exists ch c', (ch = ChLoad i n \/ ch = ChStore i n \/ ch = ChRel i n) /\
+                  pstep S X gen hfun lout mrg f x0 c ch = Some c'.
+Proof. exact held_lock_released_preach. Qed.
 
 (* no update is lost: the value of a state object is, at every moment, the fold of the
    effects of all critical sections performed on it, in the order in which they held the
@@ -214,6 +225,7 @@ Proof. exact drive_sound. Qed.
 
 Print Assumptions reach_included.
 Print Assumptions mutex.
+Print Assumptions held_lock_released.
 Print Assumptions no_lost_update.
 Print Assumptions acquisition_order.
 Print Assumptions no_lost_update_any_order.
@@ -256,6 +268,10 @@ Proof.
   split; [vm_compute; reflexivity|].
   eexists _, _, _. vm_compute. repeat split; reflexivity.
 Qed.
+
+(* held_lock_released: in the contention example the lock is held *)
+Example ex_held : map (@o_holder sstate) (c_objs ex_contend) = [Some (0%nat, 1)].
+Proof. vm_compute. reflexivity. Qed.
 
 (* no_lost_update: an object updated by three parallel nodes and by a nested graph's nodes,
    interleaved *)
@@ -319,6 +335,18 @@ Example ex_resume : ex_preach ex_resumed /\
                  match o_origin r with OGen _ => 0 | OResumed o _ => 1 + N.of_nat o end)) (c_objs ex_resumed)
   = [(1%Z, 0%Z, 0); (100002%Z, 100001%Z, 1)].
 Proof. split; [apply ex_resumed_preach|]. vm_compute. reflexivity. Qed.
+
+(* drive: replaying the log of the interleaved example run reproduces that run's log, values
+   and final state (the replay accepts what the system itself produces) *)
+Example ex_drive_roundtrip :
+  match drive ex_forest ex_x0 1 (items_of_trace ex_final) with
+  | DOk c => all2 (entry_matches c) (c_trace c) (events_of (items_of_trace ex_final)) = true /\
+             List.length (c_trace c) = 13%nat /\
+             map (fun r => s_total (o_val r)) (c_objs c) = [13%Z] /\
+             all_final sstate X c = true
+  | DBad _ => False
+  end.
+Proof. vm_compute. auto. Qed.
 
 (* drive: replaying a two-section log of the example forest succeeds *)
 Example ex_drive :
